@@ -4,7 +4,7 @@ import z3
 from . import smt, ropes
 from .values import Unsupported, VInt, VBool, VNone, NONE, VSeq, VTuple, VRef, VFunc, VOpaque, VFloat, Seg, is_conc, zint, zbool, simp
 
-NAMES = {"local", "old", "forall", "exists", "implies", "ite", "iff", "unpack32", "unpack64", "pack32", "pack64", "seq",
+NAMES = {"isbool", "local", "old", "forall", "exists", "implies", "ite", "iff", "unpack32", "unpack64", "pack32", "pack64", "seq",
          "isnone", "notnone", "held", "ghost", "typeis", "at", "bacc", "pow2", "tc", "event_count", "events",
          "isbytes", "isstr", "isint", "asbytes_spec", "utf8enc", "utf8dec", "utf8ok", "slist", "fn", "setghost",
          "in_table", "fresh_eq"}
@@ -75,6 +75,8 @@ def call(I, name, args, kwargs, fr):
         return VBool(isinstance(args[0], VSeq) and args[0].pytype != "str")
     if name == "isstr":
         return VBool(isinstance(args[0], VSeq) and args[0].pytype == "str")
+    if name == "isbool":
+        return VBool(isinstance(args[0], VBool))
     if name == "isint":
         return VBool(isinstance(args[0], VInt))
     if name == "typeis":
